@@ -144,6 +144,45 @@ def linrec (p : Prog) (budget : Nat) : String := Id.run do
         if ok then return s!"cert={n},{k - n},{d}"
   return "none"
 
+def trimList (l : List Nat) : List Nat := (l.reverse.dropWhile (· == 0)).reverse
+
+def parseCfg (s : String) : Option Cfg :=
+  match s.splitOn ":" with
+  | [q, rest] =>
+    match rest.splitOn "|" with
+    | [l, sc, r] =>
+      let nums (x : String) : List Nat := if x.isEmpty then [] else (x.splitOn ",").map String.toNat!
+      some ⟨q.toNat!, nums l, sc.toNat!, nums r⟩
+    | _ => none
+  | _ => none
+
+def cfgSame (a b : Cfg) : Bool :=
+  a.state == b.state && a.scan == b.scan && trimEq a.left b.left && trimEq a.right b.right
+
+/-- search the given configurations (strings in `showCfg` format), in order, along the L0
+    trajectory within `budget` steps; returns how many were found and the steps at which. -/
+def matchSeq (p : Prog) (budget : Nat) (targets : List String) : String := Id.run do
+  let mut c : Cfg := Cfg.init
+  let mut n := 0
+  let mut found : Array Nat := #[]
+  let mut rest := targets.filterMap parseCfg
+  if rest.length != targets.length then return "bad-targets"
+  let mut halted := false
+  while !rest.isEmpty && n ≤ budget && !halted do
+    match rest with
+    | t :: ts =>
+      if cfgSame t c then
+        found := found.push n
+        rest := ts
+    | [] => pure ()
+    match p.get (c.state, c.scan) with
+    | none => halted := true
+    | some (pr, sh, q) =>
+      c := move c pr sh q
+      n := n + 1
+  let ending := if rest.isEmpty then "done" else if halted then "halt" else "budget"
+  s!"matched={found.size}/{targets.length} end={ending} at={",".intercalate (found.toList.map toString)}"
+
 def showOptNat : Option Nat → String
   | none => "none"
   | some n => toString n
